@@ -94,7 +94,7 @@ def run(ctx):
         A = np.array([[complex(*v) if isinstance(v, list) else v for v in row] for row in c['A']])
         A = A.astype(complex) if c.get('complex') else A.real.astype(float)
         mats.append((c.get('class', 'general'), A, c['name'], c))
-    nmat = 30 if ctx.quick() else 200
+    nmat = 50 if ctx.quick() else 300
     k = 0
     while len(mats) < nmat:
         cplx = k % 3 == 2
@@ -297,7 +297,7 @@ def run(ctx):
     for (cls, A, name) in small:
         n = A.shape[0]
         seen_n[n] = seen_n.get(n, 0) + 1
-        if seen_n[n] > (2 if ctx.quick() else 8):
+        if seen_n[n] > (5 if ctx.quick() else 20):
             continue
         for mask in range(1, 2 ** n):                      # f non-empty; p may be empty
             f = [i for i in range(n) if mask >> i & 1]
@@ -312,6 +312,9 @@ def run(ctx):
                 cr = cplxA or (stor == 'dense' and rng.random() < 0.25)
                 soe_case(cls, A, name, f, p, stor, rng.choice(['vec', 'blk']), cr,
                          rng.choice(['both', 'both', 'free-only', 'prescribed-only']) if f == sorted(f) else 'both')
+                if stor == 'dense' and not cplxA and not cr and name.startswith('F'):
+                    # witness class of fix 92bff31 (F20): real dense A with complex loads / prescribed values
+                    soe_case(cls, A, name, f, p, stor, 'vec', True, 'both')
     ctx.extra['soe_exhaustive_partitions_n_le'] = 4
     for (cls, A, name, _) in mats:
         n = A.shape[0]
@@ -379,7 +382,7 @@ def run(ctx):
         if n > nmax_sc:
             continue
         seen_n[n] = seen_n.get(n, 0) + 1
-        if seen_n[n] > (2 if ctx.quick() else 6):
+        if seen_n[n] > (3 if ctx.quick() else 8):
             continue
         for assign in itertools.product((0, 1, 2), repeat=n):    # 0 main, 1 free, 2 rest
             m_ = [i for i in range(n) if assign[i] == 0]
